@@ -26,6 +26,10 @@ import (
 // [fB, fA]. fA returns 1000*(v+1)+g0, fB returns 2000*(v+1)+mem8[8]: what a table entry returns when
 // called depends on the state of the instance that OWNS the function, so a reference to another
 // instance's function is visible to the guest through call_indirect.
+//
+// Table 1 (1 slot) is peek's scratch slot for calling what a funcref GLOBAL holds. Globals: g0, g1 (mutable numeric),
+// then the 13 of constGlobalNames: immutable numeric globals of every type, funcref globals initialised by ref.func /
+// ref.null / global.get of an import (module "cst"), externref globals, a mutable funcref global (NOTES round 8).
 const (
 	aStore  = 8
 	aInit   = 32
@@ -113,16 +117,47 @@ func guestModule(variant, shape int) []byte {
 		hostFns = append(hostFns, m.ImportFunc("env", n, []byte{i32}, []byte{i32}))
 	}
 
+	// imported immutable globals of the module "cst" that every runtime has (see cstModule)
+	m.Imports = append(m.Imports,
+		wb.Import{Module: "cst", Name: "ki", Kind: wb.KindGlobal, GlobalType: i32},
+		wb.Import{Module: "cst", Name: "kf", Kind: wb.KindGlobal, GlobalType: wb.FuncRef})
+	const impKi, impKf = 0, 1
+
 	v := int32(variant)
 	m.Mem = &wb.Limits{Min: 1, Max: 3, HasMax: true}
-	m.Tables = []wb.Table{{Elem: wb.FuncRef, Lim: wb.Limits{Min: 4, Max: 6, HasMax: true}}}
+	// table 1 is the scratch slot through which peek calls the function a funcref GLOBAL holds
+	m.Tables = []wb.Table{{Elem: wb.FuncRef, Lim: wb.Limits{Min: 4, Max: 6, HasMax: true}}, {Elem: wb.FuncRef, Lim: wb.Limits{Min: 1, Max: 1, HasMax: true}}}
 	g0 := m.AddGlobal(i32, true, wb.CI32(10+v))
 	g1 := m.AddGlobal(i64, true, wb.CI64(0x1111111111111111*int64(v+1)))
+	// Per-instance objects beyond memory / mutable numeric globals / table 0 (round 8): immutable globals of every
+	// value type, funcref globals initialised by ref.func / ref.null / global.get of an import, externref globals, a
+	// mutable funcref global. fA/fB will be the first two functions of the module.
+	fnA := m.NumImportedFuncs()
+	cg := constGlobalInits(variant)
+	k32 := m.AddGlobal(i32, false, wb.CI32(int32(cg.k32)))
+	k64 := m.AddGlobal(i64, false, wb.CI64(int64(cg.k64)))
+	kf32 := m.AddGlobal(wb.F32, false, wb.CF32(uint32(cg.kf32)))
+	kf64 := m.AddGlobal(wb.F64, false, wb.CF64(cg.kf64))
+	kv := m.AddGlobal(wb.V128, false, wb.CV128(cg.kvLo, cg.kvHi))
+	rfA := m.AddGlobal(wb.FuncRef, false, wb.CRefFunc(fnA))
+	rfB := m.AddGlobal(wb.FuncRef, false, wb.CRefFunc(fnA+1))
+	rnl := m.AddGlobal(wb.FuncRef, false, wb.CRefNull(wb.FuncRef))
+	xnl := m.AddGlobal(wb.ExternRef, false, wb.CRefNull(wb.ExternRef))
+	gi := m.AddGlobal(i32, false, wb.CGlobal(impKi))
+	gfi := m.AddGlobal(wb.FuncRef, false, wb.CGlobal(impKf))
+	mf := m.AddGlobal(wb.FuncRef, true, wb.CRefFunc(fnA+1))
+	xm := m.AddGlobal(wb.ExternRef, true, wb.CRefNull(wb.ExternRef))
+	for i, n := range constGlobalNames {
+		m.Exports = append(m.Exports, wb.Export{Name: n, Kind: wb.KindGlobal, Idx: k32 + uint32(i)})
+	}
 
 	tI32 := m.Type(nil, []byte{i32})
 	// fA, fB: the functions that live in the table.
 	fA := m.AddFunc(nil, []byte{i32}, nil, (&wb.Asm{}).I32Const(1000*(v+1)).GlobalGet(g0).Op(0x6a).B)
 	fB := m.AddFunc(nil, []byte{i32}, nil, (&wb.Asm{}).I32Const(2000*(v+1)).I32Const(aStore).Mem(0x2d, 0, 0).Op(0x6a).B)
+	if fA != fnA || fB != fnA+1 {
+		panic("fA/fB must be the first two functions")
+	}
 
 	ext := func(a *wb.Asm) *wb.Asm { return a.Op(0xad) } // i64.extend_i32_u
 	def := func(name string, locals []byte, a *wb.Asm) {
@@ -174,9 +209,9 @@ func guestModule(variant, shape int) []byte {
 	def("tset", []byte{i32}, ext((&wb.Asm{}).
 		I32Const(1).TableGet(0).RefIsNull().LocalTee(0).
 		If(wb.Void).
-		I32Const(1).RefFunc(fB).TableSet(0).
+		I32Const(1).GlobalGet(rfB).TableSet(0).GlobalGet(rnl).GlobalSet(mf).
 		Else().
-		I32Const(1).RefNull(wb.FuncRef).TableSet(0).
+		I32Const(1).GlobalGet(rnl).TableSet(0).GlobalGet(rfA).GlobalSet(mf).
 		End().
 		LocalGet(0)))
 	// tgrow
@@ -297,6 +332,28 @@ func guestModule(variant, shape int) []byte {
 								Else().I64Const(3).End()
 		})
 	}
+	// the constant / reference globals: values, nullness, and what the function a funcref global holds returns when it
+	// is called through the scratch table 1 (global -> table -> call_indirect)
+	mix(func() { p.GlobalGet(k32).Op(0xad) })
+	mix(func() { p.GlobalGet(k64) })
+	mix(func() { p.GlobalGet(kf32).Op(0xbc).Op(0xad) }) // i32.reinterpret_f32
+	mix(func() { p.GlobalGet(kf64).Op(0xbd) })          // i64.reinterpret_f64
+	mix(func() { p.GlobalGet(kv).Simd(0x1d).Op(0) })    // i64x2.extract_lane 0
+	mix(func() { p.GlobalGet(kv).Simd(0x1d).Op(1) })
+	mix(func() { p.GlobalGet(gi).Op(0xad) })
+	for _, g := range []uint32{rnl, xnl, xm, mf} {
+		g := g
+		mix(func() { p.GlobalGet(g).RefIsNull().Op(0xad) })
+	}
+	for _, g := range []uint32{rfA, rfB, gfi, mf} {
+		g := g
+		mix(func() {
+			p.GlobalGet(g).RefIsNull().
+				If(i64).I64Const(7).
+				Else().I32Const(0).GlobalGet(g).TableSet(1).I32Const(0).CallIndirect(tI32, 1).Op(0xad).
+				End()
+		})
+	}
 	p.LocalGet(0)
 	m.ExportFunc(peekName, m.AddFunc(nil, []byte{i64}, []byte{i64}, p.B))
 
@@ -351,6 +408,37 @@ func guestModule(variant, shape int) []byte {
 	default:
 		panic("bad shape")
 	}
+	return m.Encode()
+}
+
+// constGlobalNames are the export names of the round-8 globals, in definition order (global index k32+i).
+var constGlobalNames = []string{"k32", "k64", "kf32", "kf64", "kv", "rfA", "rfB", "rnl", "xnl", "gi", "gfi", "mf", "xm"}
+
+type constGlobalVals struct {
+	k32, kf32  uint64
+	k64, kf64  uint64
+	kvLo, kvHi uint64
+}
+
+// constGlobalInits are the variant-specific initialisers of the immutable numeric globals.
+func constGlobalInits(variant int) constGlobalVals {
+	v := uint64(variant)
+	return constGlobalVals{k32: 0x5a5a00 + v, k64: 0x0123456789abcd00 + v, kf32: 0x40490fd0 + v, kf64: 0x400921fb54442d10 + v,
+		kvLo: 0x1111222233334400 + v, kvHi: 0x5555666677778800 + v}
+}
+
+const cstKi = 4242 // value of the imported immutable global cst.ki
+const cstFn = 777  // what the function held by the imported funcref global cst.kf returns
+
+// cstModule is a module WITHOUT mutable state that every runtime instantiates once under the name "cst" (like WASI and
+// "env"): it exports two IMMUTABLE globals, an i32 and a funcref to its own function, so that the guest can define
+// globals initialised by global.get of an import.
+func cstModule() []byte {
+	m := &wb.Module{}
+	f := m.AddFunc(nil, []byte{wb.I32}, nil, (&wb.Asm{}).I32Const(cstFn).B)
+	ki := m.AddGlobal(wb.I32, false, wb.CI32(cstKi))
+	kf := m.AddGlobal(wb.FuncRef, false, wb.CRefFunc(f))
+	m.Exports = append(m.Exports, wb.Export{Name: "ki", Kind: wb.KindGlobal, Idx: ki}, wb.Export{Name: "kf", Kind: wb.KindGlobal, Idx: kf})
 	return m.Encode()
 }
 
